@@ -92,6 +92,12 @@ func (calc *Calculator) ComputeFlows() *journal.Processor {
 
 			for _, p := range t.Postings {
 
+				if calc.CommodityFilter != nil && !calc.CommodityFilter(p.Commodity) {
+					// not a portfolio commodity (ComputeValues does not count
+					// it either) - no performance impact.
+					continue
+				}
+
 				if !calc.isPortfolioAccount(p.Account) {
 					// not a portfolio booking - no performance impact.
 					continue
